@@ -69,14 +69,14 @@ Definition csr_rows (c : csr) (n : nat) : adjrows :=
 
 Inductive node_order := ORandom | ODecreasing | OIncreasing | ONone.
 (** the test of _instantiate_vars deciding "clustering mode" (every node is updated, seeds included):
-    current source [len(set(labels)) == n] = [CT_distinct]; [CT_nonneg] = "no negative value";
-    [CT_distinct_nonneg] = both. *)
+    legacy source (before 4b87643c) [len(set(labels)) == n] = [CT_distinct]; [CT_nonneg] = "no negative value";
+    [CT_distinct_nonneg] = both (repaired source). The value in force is read from the source (Gen/VoteConsts.v). *)
 Inductive cluster_test := CT_distinct | CT_nonneg | CT_distinct_nonneg.
-(** length of the vector of ones used as [data] when weighted=False: [n] (current source) or nnz. *)
+(** length of the vector of ones used as [data] when weighted=False: [n] (legacy, before 32660cf6) or nnz. *)
 Inductive ones_size := Ones_n | Ones_nnz.
 (** how 'increasing' / 'decreasing' reorder the free nodes: [OI_position] = [index_remain = index[index_remain]]
-    (current source: the entries of the argsort at the POSITIONS index_remain); [OI_filter] = the argsort restricted
-    to the free nodes ([index[np.isin(index, index_remain)]]). *)
+    (legacy, before c0b9c86b: the entries of the argsort at the POSITIONS index_remain); [OI_filter] = the argsort
+    restricted to the free nodes ([index[np.isin(index, index_remain)]], repaired source). *)
 Inductive order_impl := OI_position | OI_filter.
 Record pvariant := { pv_kernel : kvariant; pv_ctest : cluster_test; pv_ones : ones_size; pv_order : order_impl }.
 
